@@ -1112,3 +1112,27 @@ Qed.
 
 Theorem reachable_Sl : forall st, reachable st -> SlInv st.
 Proof. intros st [scr [sched ->]]. apply wrun_Sl; [apply MInv_init|apply Sl_init]. Qed.
+
+(** ** C12, identity form *)
+
+(** a live Waker (registered plain waker, open channel, or a Waker whose drop has not been pushed yet) keeps its
+    slot and handler, and that slot is not queued for deletion *)
+Theorem live_waker_keeps_slot : forall st x h,
+  reachable st -> claimed st x h -> slab_get (sl st) x = Some h /\ ~ In x (pipeline st).
+Proof. intros st x h R. apply (sl_claim st (reachable_Sl st R)). Qed.
+
+(** only slots of dropped Wakers are ever queued for deletion: a slot in the drop pipeline is claimed by no live
+    Waker, is occupied, and occurs once (each dropped Waker gets exactly one [deleted = true] call) *)
+Theorem deleted_only_dropped : forall st x,
+  reachable st -> In x (pipeline st) ->
+  (forall h, ~ claimed st x h) /\ (exists h, slab_get (sl st) x = Some h) /\ NoDup (pipeline st).
+Proof.
+  intros st x R Hin. pose proof (reachable_Sl st R) as S. split; [|split].
+  - intros h C. exact (proj2 (sl_claim st S x h C) Hin).
+  - apply (sl_occ st S x Hin).
+  - apply (sl_nodup st S).
+Qed.
+
+(** a Waker identity is live at most once and is dropped at most once *)
+Theorem dropped_at_most_once : forall st h, reachable st -> (regsrc st h + npush st h <= 1)%nat.
+Proof. intros st h R. apply (sl_uniq st (reachable_Sl st R)). Qed.
